@@ -34,7 +34,7 @@ def apply(ctx, W):
 
     tr = W.file("semantic/type_registry.rs")
     fn, u = fn_into_verus(ctx, tr, "TypeRegistry::resolve_grammar_type", ret="r", tags=U, decreases="type_", requires=["reg_wf(self)"],
-                          ensures=[("r == spec_resolve_type(self, scope@, *type_)", ("C05", "C08", "C10", "C11"), "resolve-type")])
+                          ensures=[("r == spec_resolve_type(self, scope@, *type_)", ("C01", "C02", "C04", "C05", "C08", "C10", "C11", "C20"), "resolve-type")])
     for c in tr.method_calls(fn, "as_ref"):
         rules.box_as_ref(tr, c)
     for k, ctor in ((1, "ConstPointer"), (2, "MutPointer")):
